@@ -119,8 +119,9 @@ public:
 
   shared_ptr &operator=(shared_ptr &&other) noexcept
   {
-    wrapper().~shared_ptr_wrapper();
-    other.wrapper().MoveTo(buffer_);
+    // take over `other` first: it may live inside the object this pointer is about to let go of
+    shared_ptr tmp{std::move(other)};
+    swap(tmp);
     return *this;
   }
 
@@ -132,11 +133,9 @@ public:
 
   shared_ptr &operator=(const shared_ptr &other) noexcept
   {
-    if (this != &other)
-    {
-      wrapper().~shared_ptr_wrapper();
-      other.wrapper().CopyTo(buffer_);
-    }
+    // copy `other` first: it may live inside the object this pointer is about to let go of
+    shared_ptr tmp{other};
+    swap(tmp);
     return *this;
   }
 
